@@ -6,6 +6,7 @@ import (
 	"bytes"
 	"fmt"
 	"io"
+	"math"
 	"net"
 	"net/http"
 	"net/url"
@@ -160,8 +161,23 @@ func TestLibraryClient(t *testing.T) {
 		if size < 0 {
 			size = 0
 		}
-		if ep.kind == "udp" && size > udpMax {
-			size = udpMax
+		if rapid.IntRange(0, 11).Draw(rt, "hugeLimit") == 0 {
+			// limits beyond what a frame can announce: everything that can be sent is within them
+			limit = rapid.SampledFrom([]int{1 << 31, 1<<31 + 1, 3 << 30, 1 << 32, 1<<32 + 5, 1 << 40, math.MaxInt64, math.MaxInt32, math.MaxInt32 - 1}).Draw(rt, "limitValue")
+			size = rapid.IntRange(0, 5000).Draw(rt, "sizeUnderHugeLimit")
+			if ep.kind == "udp" && size > udpMax {
+				size = udpMax
+			}
+		}
+		if ep.kind == "udp" && rapid.IntRange(0, 3).Draw(rt, "aroundDatagramCapacity") == 0 {
+			// just above what one datagram can carry: over any limit a UDP service can have, and the client
+			// itself has to refuse it with the same error
+			size = udpMax + rapid.IntRange(-2, 60).Draw(rt, "capacityDelta")
+		}
+		// what a datagram can carry bounds a UDP request whatever the service allows
+		eff := limit
+		if ep.kind == "udp" && eff > udpMax {
+			eff = udpMax
 		}
 		seed := rapid.Uint32().Draw(rt, "seed")
 		req, isCall := buildRequest(size, seed, rapid.Bool().Draw(rt, "call"))
@@ -173,14 +189,14 @@ func TestLibraryClient(t *testing.T) {
 		ep.svc.MaxRequestLength = limit
 		resp, err := tp.Raw(ep.client, req)
 		wait := time.Duration(0)
-		if size > limit {
+		if size > eff {
 			wait = 3 * time.Millisecond // a refused request must not show up late either
 		}
 		seen, fn := waitQuiet(ep.svc, wait)
 		ep.svc.MaxRequestLength = noLimit
 		problem := ""
 		refusedByReset := false
-		if size > limit {
+		if size > eff {
 			switch {
 			case len(seen) > 0 || fn > 0:
 				problem = fmt.Sprintf("a %d-byte request was processed although MaxRequestLength is %d (IO plugin saw %d requests, function invoked %d times)", size, limit, len(seen), fn)
@@ -209,7 +225,7 @@ func TestLibraryClient(t *testing.T) {
 			}
 		}
 		// the next request within the (restored) limit must go through
-		if problem == "" && size > limit {
+		if problem == "" && size > eff {
 			small, _ := buildRequest(30, seed+1, true)
 			if _, err := tp.Raw(ep.client, small); err != nil {
 				problem = fmt.Sprintf("after a refused request the next small call failed: %v", err)
@@ -217,10 +233,10 @@ func TestLibraryClient(t *testing.T) {
 			ep.svc.Take()
 		}
 		rel := "within"
-		if size > limit {
+		if size > eff {
 			rel = "over"
 		}
-		if size == limit || size == limit+1 {
+		if size == eff || size == eff+1 {
 			rel += "-edge"
 		}
 		_ = refusedByReset
